@@ -844,13 +844,159 @@ Qed.
 Definition terrapin_script : script := [(false, 2, 2); (false, 3, -1)].
 
 Lemma nonstrict_shift :
-  let n := scenario (cfg_of Client KDH false true) (cfg_of Server KDH false true) terrapin_script false in
+  let n := scenario (cfg_of Client KDH false true false) (cfg_of Server KDH false true false)
+                    terrapin_script 0 in
   o_c n = Continue /\ o_s n = Continue /\
   tx_s n = [20; 0; 31; 1; 21; 2; 7; 3; 6; 4; 52; 5] /\
   rx_c n = [20; 0; 31; 1; 2; 2; 21; 3; 6; 4; 52; 5].
 Proof. vm_compute. repeat split; reflexivity. Qed.
 
 Lemma strict_no_shift_same_script :
-  let n := scenario (cfg_of Client KDH true true) (cfg_of Server KDH true true) terrapin_script false in
+  let n := scenario (cfg_of Client KDH true true false) (cfg_of Server KDH true true false)
+                    terrapin_script 0 in
   o_c n = AbortMOE /\ rx_c n = [20; 0; 31; 1; 2; 2].
 Proof. vm_compute. repeat split; reflexivity. Qed.
+
+(* ---------------------------------------------------------------------------------------- *)
+(* strict mode is latched: once agreed it survives every later KEXINIT an authentic peer can send
+   (with its kex-strict name, marker 1, or without any, marker 0, as OpenSSH does on re-keys) *)
+
+Definition honest_marker (p : pkt) : Prop := p_type p = MSG_KEXINIT -> p_marker p = 0 \/ p_marker p = 1.
+
+Lemma negotiate_sticky c st p s o st1 sends :
+  negotiate c st p s = (o, st1, sends) -> agreed st = true -> c_adv c = true ->
+  (p_marker p = 0 \/ p_marker p = 1) -> agreed st1 = true.
+Proof.
+  intros H Ha Hadv Hm. unfold negotiate in H.
+  assert (Hag : (if p_marker p =? 0 then agreed st else (p_marker p =? 1) && c_adv c) = true).
+  { destruct Hm as [M|M]; rewrite M; simpl; auto. }
+  rewrite Hag in H. unf. dm_hyp H; inversion H; subst; simpl; auto.
+Qed.
+
+Lemma handlers_sticky c st p s o st1 sends :
+  handlers c st p s = (o, st1, sends) -> agreed st = true -> c_adv c = true -> honest_marker p ->
+  agreed st1 = true.
+Proof.
+  intros H Ha Hadv Hm. unfold handlers in H.
+  destruct (p_type p =? MSG_KEXINIT) eqn:T.
+  - apply Z.eqb_eq in T. eapply negotiate_sticky; eauto.
+  - unfold parse_newkeys, set_ctl, set_in in H.
+    dm_hyp H; inversion H; subst; simpl in *; auto.
+Qed.
+
+Lemma handle_sticky c st p s o st1 sends :
+  handle c st p s = (o, st1, sends) -> agreed st = true -> c_adv c = true -> honest_marker p ->
+  agreed st1 = true.
+Proof.
+  intros H Ha Hadv Hm. unfold handle in H.
+  destruct (p_type p =? MSG_IGNORE); [inversion H; subst; auto|].
+  destruct (p_type p =? MSG_DISCONNECT); [inversion H; subst; auto|].
+  destruct (p_type p =? MSG_DEBUG); [inversion H; subst; auto|].
+  destruct (is_nil (expected st)); [eapply handlers_sticky; eauto|].
+  destruct (negb (mem (p_type p) (expected st))); [inversion H; subst; auto|].
+  destruct ((30 <=? p_type p) && (p_type p <=? 41)).
+  - destruct (kex_next c (p_type p) (p_ok p)) as [[[sd ex] act]|]; inversion H; subst; simpl; auto.
+  - eapply handlers_sticky; eauto.
+Qed.
+
+Lemma handle_adv c st p s o st1 sends :
+  handle c st p s = (o, st1, sends) -> (agreed st = true -> c_adv c = true) ->
+  agreed st1 = true -> c_adv c = true.
+Proof.
+  intros H Hi Ha. unf. dm_hyp H; inversion H; subst; simpl in *; auto;
+    try discriminate; try (apply Hi; reflexivity); try congruence;
+    try (apply andb_true_iff in Ha; tauto);
+    try (repeat match goal with K : _ && _ = true |- _ => apply andb_true_iff in K; destruct K end;
+         auto; congruence).
+Qed.
+
+Lemma step_sticky mac_ok c st p o st' outs :
+  step mac_ok c st p = (o, st', outs) -> agreed st = true -> c_adv c = true -> honest_marker p ->
+  agreed st' = true.
+Proof.
+  intros H Ha Hadv Hm. unfold step in H.
+  destruct (readable mac_ok st p); simpl in H; [|inversion H; subst; auto].
+  destruct (handle c _ p (seq_in st)) as [[o1 st1] sends] eqn:Eh.
+  destruct (emit c st1 sends) as [st2 outs2] eqn:Ee. inversion H; subst.
+  apply emit_frame in Ee. destruct Ee as (Fa & _). rewrite Fa.
+  eapply handle_sticky; eauto.
+Qed.
+
+Lemma do_input_sticky mac_ok c st i o st' outs :
+  do_input mac_ok c st i = (o, st', outs) -> agreed st = true -> c_adv c = true ->
+  (forall p, i = Recv p -> honest_marker p) -> agreed st' = true.
+Proof.
+  intros H Ha Hadv Hm. destruct i as [p|ts]; simpl in H.
+  - eapply step_sticky; eauto.
+  - destruct (local c st ts) as [sl ol] eqn:El. inversion H; subst.
+    unfold local in El. apply emit_frame in El. destruct El as (Fa & _). rewrite Fa.
+    destruct (mem MSG_KEXINIT ts); simpl; auto.
+Qed.
+
+Lemma peer_run_sticky mac_ok c ins : forall st o st' outs,
+  peer_run mac_ok c st ins = (o, st', outs) -> agreed st = true -> c_adv c = true ->
+  (forall p, In p (recvs ins) -> honest_marker p) -> agreed st' = true.
+Proof.
+  induction ins as [|i r IH]; intros st o st' outs H Ha Hadv Hm; simpl in H.
+  - inversion H; subst; auto.
+  - destruct (do_input mac_ok c st i) as [[o1 st1] outs1] eqn:Ed.
+    assert (A1 : agreed st1 = true).
+    { eapply do_input_sticky; eauto. intros p ->. apply Hm. simpl. auto. }
+    destruct o1; try (inversion H; subst; auto).
+    destruct (peer_run mac_ok c st1 r) as [[o2 st2] outs2] eqn:Er. inversion H; subst.
+    eapply IH; eauto. intros p Hp. apply Hm. destruct i; simpl; auto.
+Qed.
+
+(* agreed can only ever have become true on a transport that advertises strict kex *)
+Lemma peer_run_adv mac_ok c ins : forall st o st' outs,
+  peer_run mac_ok c st ins = (o, st', outs) -> (agreed st = true -> c_adv c = true) ->
+  agreed st' = true -> c_adv c = true.
+Proof.
+  induction ins as [|i r IH]; intros st o st' outs H Hi Ha; simpl in H.
+  - inversion H; subst; auto.
+  - destruct (do_input mac_ok c st i) as [[o1 st1] outs1] eqn:Ed.
+    assert (I1 : agreed st1 = true -> c_adv c = true).
+    { destruct i as [p|ts]; simpl in Ed.
+      - unfold step in Ed. destruct (readable mac_ok st p); simpl in Ed; [|inversion Ed; subst; auto].
+        destruct (handle c _ p (seq_in st)) as [[o3 st3] sends] eqn:Eh.
+        destruct (emit c st3 sends) as [st4 outs4] eqn:Ee. inversion Ed; subst.
+        apply emit_frame in Ee. destruct Ee as (Fa & _). rewrite Fa.
+        eapply handle_adv; eauto.
+      - destruct (local c st ts) as [sl ol] eqn:El. inversion Ed; subst.
+        unfold local in El. apply emit_frame in El. destruct El as (Fa & _). rewrite Fa.
+        destruct (mem MSG_KEXINIT ts); simpl; auto. }
+    destruct o1; try (inversion H; subst; auto).
+    destruct (peer_run mac_ok c st1 r) as [[o2 st2] outs2] eqn:Er. inversion H; subst.
+    eapply IH; eauto.
+Qed.
+
+Lemma strict_sticky mac_ok c ins1 st1 outs1 ins2 o st2 outs2 :
+  session mac_ok c ins1 = (Continue, st1, outs1) -> agreed st1 = true ->
+  peer_run mac_ok c st1 ins2 = (o, st2, outs2) ->
+  (forall p, In p (recvs ins2) -> honest_marker p) ->
+  agreed st2 = true /\
+  (forall p st3 outs3, step mac_ok c st2 p = (Continue, st3, outs3) -> p_type p = MSG_NEWKEYS ->
+     seq_in st3 = 0) /\
+  seq_out (fst (send1 c st2 MSG_NEWKEYS)) = 0.
+Proof.
+  intros HS Ha HR Hm.
+  assert (Hadv : c_adv c = true).
+  { unfold session in HS. destruct (start c) as [st0 outs0] eqn:Es.
+    destruct (peer_run mac_ok c st0 ins1) as [[o1 sx] ox] eqn:Er. inversion HS; subst.
+    unfold start in Es. apply emit_frame in Es. destruct Es as (Fa & _).
+    apply (peer_run_adv mac_ok c ins1 st0 Continue st1 ox Er); [|exact Ha].
+    intro K. rewrite Fa in K. simpl in K. discriminate. }
+  assert (A2 : agreed st2 = true) by (eapply peer_run_sticky; eauto).
+  split; auto. split.
+  - intros p st3 outs3 H T. eapply seq_reset_in; eauto.
+  - pose proof (seq_reset_out c st2 A2) as R. destruct (send1 c st2 MSG_NEWKEYS). simpl. tauto.
+Qed.
+
+(* why the marker hypothesis: the code re-evaluates the flag whenever a KEXINIT carries some kex-strict-*
+   name, so an (authenticated) peer sending the wrong role's name on a re-key would switch it off *)
+Lemma sticky_needs_honest_marker :
+  let c := cfg_of Client KDH true true false in
+  let st := set_ctl peer0 true true [] false false in
+  agreed (snd (fst (handle c st {| p_type := 20; p_ok := true; p_marker := 2; p_epoch := 0; p_mseq := 0 |} 0)))
+  = false.
+Proof. vm_compute. reflexivity. Qed.
